@@ -32,8 +32,10 @@ ASSUMPTIONS = ['CPython/pyparsing trusted; a watchdog firing is reported as inco
 HOSTILE_ATOMS = ['', ' ', '  ', '.', 'a.b', 'a.b.c', 'a.b.c.d', '..', '{x}', '{0}', '{c}', '{}', '{', '}', '%s', '%(x)s', '%',
                  "'", "''", "'''", '`', '\\', '\\n', '\\t', '\\"', "\\'", '\\\\', 'a\\', '﻿', '﻿x', '\x00', 'x' * 3000,
                  'é', '名前', '😀', 'table', 'note', 'ref', 'enum', 'null', 'true', ',', '(', ')', '(a,b)', '[', ']', '#', '//', '/*', '*/',
-                 ':', ';', '<', '>', '-', '<>', 'a b', ' a', 'a ', '0', '-1', '1e5', '$x', '@', '!']
+                 ':', ';', '<', '>', '-', '<>', 'a b', ' a', 'a ', '0', '-1', '1e5', '$x', '@', '!',
+                 '\x0c', '\x0b', '\xa0', '\u2003', '\u3000', '\x85', '\u2028', ' \x0c ', '\xa0\xa0', '\r']
 ALPHA12 = ['a', ' ', '.', '{', '}', "'", '"', '\\', '`', '\n', '%', ',']
+WS_EXOTIC = ['\x0c', '\x0b', '\xa0', '\u2003', '\r', '\x85', '\u2028']
 DBML_TOKENS = ['Table', 'Enum', 'Ref', 'Ref:', 'TableGroup', 'Project', 'Note', 'Note:', 'note:', 'indexes', 'as', '{', '}', '[', ']',
                '(', ')', ',', ':', '.', '>', '<', '-', '<>', 'pk', 'unique', 'not null', 'null', 'increment', 'default:', 'ref:',
                'headercolor:', '#fff', '#12345', 'type:', 'btree', 'name:', 'update:', 'delete:', 'cascade', "'s'", '"q"', "'''m\nl'''",
@@ -144,7 +146,8 @@ class HostileTexts(gen.Texts):
     def line(self, tag='x'):
         if self.rng.random() < 0.35:
             self.n += 1
-            a = self.rng.choice(HOSTILE_ATOMS + ['\n', ' \n ', '\n\n', 'a\n b\n  c', '  \n  x\n', '\t'])
+            a = self.rng.choice(HOSTILE_ATOMS + ['\n', ' \n ', '\n\n', 'a\n b\n  c', '  \n  x\n', '\t', '\x0c\n\x0c', '\xa0\n\xa0',
+                                                 ' \r\n ', '\u2003\n', '\n\x0b\n'])
             return a if self.rng.random() < 0.5 else f'{tag}{self.n} {a} end'
         return super().line(tag)
 
@@ -306,6 +309,8 @@ def run_shard(spec, tier, seed, budget_s):
     strings = ['']
     for L in range(1, maxlen + 1):
         strings += [''.join(p) for p in itertools.product(ALPHA12, repeat=L)]
+    # whitespace-only texts made of characters other than blank / tab / newline, alone and around a line break
+    strings += WS_EXOTIC + [a + '\n' + b for a in WS_EXOTIC[:4] for b in ('', ' ', a)] + [' ' + a for a in WS_EXOTIC[:4]]
     combos = [(site, s) for site in SITES for s in strings]
     for j, (site, s) in enumerate(combos):
         if j % n != i:
